@@ -68,7 +68,7 @@ func (c *simConn) Rebind() error                         { return nil }
 func (c *simConn) LocalAddr() (netip.AddrPort, error)    { return c.addr, nil }
 func (c *simConn) ListenOut(udp.EncReader, func()) error { panic("simConn.ListenOut is not used by netsim") }
 func (c *simConn) ReloadConfig(*config.C)                {}
-func (c *simConn) SupportsMultipleReaders() bool         { return false }
+func (c *simConn) SupportsMultipleReaders() bool         { return c.w.routines > 1 }
 func (c *simConn) Close() error                          { c.closed = true; return nil }
 func (c *simConn) WriteTo(b []byte, a netip.AddrPort) error {
 	if c.failNext > 0 {
@@ -116,7 +116,14 @@ func (t *simTun) RoutesFor(a netip.Addr) routing.Gateways {
 	}
 	return g
 }
-func (t *simTun) Queues(int) ([]tio.Queue, error) { return []tio.Queue{t}, nil }
+func (t *simTun) Queues(n int) ([]tio.Queue, error) {
+	// one simulated device behind every queue (the driver decides which reader routine gets a packet)
+	q := make([]tio.Queue, max(1, n))
+	for i := range q {
+		q[i] = t
+	}
+	return q, nil
+}
 func (t *simTun) Read() ([]tio.Packet, error)     { return nil, io.EOF }
 func (t *simTun) Write(p []byte) (int, error) {
 	if t.failNext > 0 && t.failSkip > 0 {
@@ -160,6 +167,7 @@ type simNode struct {
 	conn  *simConn
 	tun   *simTun
 	rxc   *rxContext
+	rxc2  *rxContext // second reader routine (worlds with routines == 2)
 	sb    *batch.SendBatch
 	cm    *connectionManager
 	alive bool
@@ -302,7 +310,7 @@ func (w *simWorld) newSimNode(idx int, spec *nodeSpec) (*simNode, error) {
 		reQueryWait:           c.GetDuration("timers.requery_wait_duration", defaultReQueryWait),
 		DropLocalBroadcast:    c.GetBool("tun.drop_local_broadcast", false),
 		DropMulticast:         c.GetBool("tun.drop_multicast", false),
-		routines:              1,
+		routines:              max(1, w.routines),
 		MessageMetrics:        mm,
 		version:               "netsim",
 		relayManager:          NewRelayManager(ctx, l, hostMap, c),
@@ -316,6 +324,10 @@ func (w *simWorld) newSimNode(idx int, spec *nodeSpec) (*simNode, error) {
 		return nil, fmt.Errorf("interface: %w", err)
 	}
 	f.writers = []udp.Conn{conn}
+	for r := 1; r < w.routines; r++ {
+		// Main opens one SO_REUSEPORT socket per routine; here every routine writes to the one simulated socket
+		f.writers = append(f.writers, conn)
+	}
 	lh.ifce = f
 	f.RegisterConfigChangeCallbacks(c)
 	f.reloadDisconnectInvalid(c)
@@ -330,6 +342,9 @@ func (w *simWorld) newSimNode(idx int, spec *nodeSpec) (*simNode, error) {
 	}
 	n.f, n.conn, n.tun, n.cm = f, conn, tun, cm
 	n.rxc = newRxContext(f, 0)
+	if f.routines > 1 {
+		n.rxc2 = newRxContext(f, 1)
+	}
 	n.sb = batch.NewSendBatch(conn, batch.SendBatchCap, batch.SendBatchCap*(udp.MTU+32))
 	n.fwPacket = &firewall.ParsedPacket{}
 	n.nb = make([]byte, 12)
@@ -346,6 +361,18 @@ func (n *simNode) localAddrs() []netip.Addr {
 }
 
 func (n *simNode) vpnAddr() netip.Addr { return n.spec.nets[0].Addr() }
+
+// recvBatch2 is recvBatch on the node's second reader routine.
+func (n *simNode) recvBatch2(dgs []*simDatagram) {
+	for _, d := range dgs {
+		buf := append([]byte(nil), d.data...)
+		n.f.readOutsidePackets(ViaSender{UdpAddr: d.from}, buf, n.rxc2)
+	}
+	if err := n.f.batchers[1].Flush(); err != nil {
+		n.w.rc.Logf("node %d: flush error %v", n.idx, err)
+	}
+	clear(n.rxc2.hostmapCache)
+}
 
 // recvBatch is exactly listenOut's listener (per datagram) + flusher (once).
 func (n *simNode) recvBatch(dgs []*simDatagram) {
@@ -512,6 +539,8 @@ type simWorld struct {
 	// batchRx: datagrams reaching a node at the same instant (or within a drawn coalescing window) are handed to
 	// it as one receive batch with one flush, as recvmmsg does; a batch of one takes the usual (observed) path
 	batchRx bool
+	// routines: reader routines per node (0/1: one). With 2 every node has a second receive context (rxc2).
+	routines int
 	withDNS   bool
 	steps     int
 	maxSteps  int
